@@ -34,6 +34,16 @@ def extra_cfgs(rng: random.Random) -> List[Dict[str, Any]]:
         for pidx in (None, 0):
             for bt in ([3], [2, 3], []):
                 out.append({"op": "embedding", "batch": bt, "vocab": 5, "dim": 3, "padding_idx": pidx, "max_norm": mn, "frozen": True, "wscale": 2.0})
+    # "all finite tensor values": large and tiny magnitudes, where low-precision intermediates over/underflow
+    for op in ("layer_norm", "rms_norm"):
+        for dt in ("f16", "bf16", "f32", "f64"):
+            for sc in (1e-3, 300.0, 1000.0):
+                out.append({"op": op, "batch": [2, 3], "norm_shape": [8], "affine": rng.random() < 0.5, "bias": True, "eps": 1e-5, "scale": sc, "dtype": dt})
+    for op, extra in (("gelu", {"approximate": "none"}), ("silu", {})):
+        for dt in ("f16", "bf16"):
+            out.append({"op": op, "mult": 1.0, "constraint": None, "batch": [2], "n": 6, "scale": 50.0, "dtype": dt, **extra})
+    for dt in ("f16", "bf16", "f32"):
+        out.append({"op": "softmax", "mult": 1.0, "constraint": None, "batch": [2], "n": 6, "dim": -1, "scale": 30.0, "dtype": dt})
     return out
 
 
